@@ -38,6 +38,10 @@ var c09ComposeCases = []faCase{
 		patch: "@@\nvar m identifier\n@@\n-m.Lock()\n+m.Lock()\n+defer m.Unlock()\n\n@@\nvar n identifier\n@@\n-n.Lock()\n-defer n.Unlock()\n-work()\n+guarded(n)\n",
 		minus: "package p\n\nfunc f() {\n\t⟦«m:mu».Lock()⟧\n\twork()\n}\n\nfunc g() {\n\tpre()\n\t⟦«m:rw».Lock()⟧\n\tother()\n}\n",
 		plus:  "package p\n\nfunc f() {\n\t⟦«m».Lock()\n\tdefer «m».Unlock()⟧\n\twork()\n}\n\nfunc g() {\n\tpre()\n\t⟦«m».Lock()\n\tdefer «m».Unlock()⟧\n\tother()\n}\n"},
+	{name: "second-rebinds-declared-identifier",
+		patch: "@@\nvar x expression\n@@\n-use(x)\n+consume(x)\n\n@@\nvar y identifier\n@@\n-y := load()\n-consume(y)\n+consume(load())\n",
+		minus: "package p\n\nfunc f() {\n\tv := load()\n\t⟦use(«x:v»)⟧\n}\n\nfunc g(w int) {\n\tw := load()\n\t⟦use(«x:w»)⟧\n}\n",
+		plus:  "package p\n\nfunc f() {\n\tv := load()\n\t⟦consume(«x»)⟧\n}\n\nfunc g(w int) {\n\tw := load()\n\t⟦consume(«x»)⟧\n}\n"},
 	{name: "second-sees-elided-empty-list",
 		patch: "@@\nvar T identifier\n@@\n-T{...}\n+mk(T{...})\n\n@@\nvar U identifier\n@@\n-mk(U{})\n+zero(U)\n",
 		minus: "package p\n\nvar a = ⟦«T:Box»{}⟧\n\nvar b = ⟦«T:Bag»{«d1:x: 1»}⟧\n",
